@@ -168,6 +168,24 @@ int main(void) {
 			watching = 0;
 			for (int i = 0; i < k; i++) if (rcs[i] != URI_ERROR_MEMORY_MANAGER_INCOMPLETE) incomplete_bad++;
 			if (nblk != 0 || libc_calls != 0) incomplete_bad += 100;
+			/* the same on an object that is already owner (made so with the complete manager): the rejection must not depend on
+			 * what the object looks like, and nothing may be requested or released */
+			pool_reset(); libc_calls = 0;
+			T(Uri) ou, od; memset(&ou, 0, sizeof ou); memset(&od, 0, sizeof od);
+			if (F(ParseSingleUriExMm)(&ou, t, t + n, &ep, &pm) == 0 && F(MakeOwnerMm)(&ou, &pm) == 0) {
+				int nb0 = nblk, live0 = pool_live(), bad0 = bad, k2 = 0; int r2[8];
+				watching = 1;
+				r2[k2++] = F(MakeOwnerMm)(&ou, &im);
+				r2[k2++] = F(NormalizeSyntaxExMm)(&ou, 63, &im);
+				r2[k2++] = F(NormalizeSyntaxExMm)(&ou, 8, &im);
+				r2[k2++] = F(AddBaseUriExMm)(&od, &ou, &ou, URI_RESOLVE_STRICTLY, &im);
+				r2[k2++] = F(RemoveBaseUriMm)(&od, &ou, &ou, URI_TRUE, &im);
+				r2[k2++] = F(FreeUriMembersMm)(&ou, &im);
+				watching = 0;
+				for (int i = 0; i < k2; i++) if (r2[i] != URI_ERROR_MEMORY_MANAGER_INCOMPLETE) incomplete_bad++;
+				if (nblk != nb0 || pool_live() != live0 || bad != bad0 || libc_calls != 0) incomplete_bad += 100;
+			}
+			F(FreeUriMembersMm)(&ou, &pm);
 		}
 		/* (3) NULL manager: the default manager uses the C library allocator */
 		libc_calls = 0; watching = 1;
